@@ -50,6 +50,9 @@ def gen_numbers(rng):
     if rng.random() < 0.1:
         # many members of the 1024-wide private block: hash collisions among listed numbers are likely
         return sorted(str(n) for n in rng.sample(range(64512, 65536), rng.randint(20, 60)))
+    if rng.random() < 0.06:
+        # a LONG list (an operator's whole customer table): hundreds of numbers of every size
+        nums.update(rng.choice([rng.randint(1, 65535), rng.randint(1, 4294967295), rng.randint(64512, 65535)]) for _ in range(rng.choice([201, 257, 400, 600])))
     for _ in range(rng.randint(1, 6)):
         r = rng.random()
         if r < 0.08:
